@@ -23,6 +23,14 @@ from .common import CKPT_MOD, short
 OM = "optimizer_modules:OptimizerModule"
 
 
+def _item_loop_vars(fi) -> tuple[str, str]:
+    """(key, value) loop variable names of the `for k, v in <current state>.items()` loop of the reader."""
+    for n in A.walk_no_nested(fi.node):
+        if isinstance(n, ast.For) and _norm(n.iter).endswith(".items()") and isinstance(n.target, ast.Tuple) and len(n.target.elts) == 2 and all(isinstance(x, ast.Name) for x in n.target.elts):
+            return n.target.elts[0].id, n.target.elts[1].id
+    raise AnalysisError(f"items() loop not found in {fi.qual}")
+
+
 def codec_pairing(ctx, rep, rule: str) -> None:
     repo = ctx.repo
     fl = repo.func(f"{CKPT_MOD}:flatten")
@@ -120,8 +128,9 @@ def kind_tables(ctx, rep, rule: str) -> None:
     ea = _arms(repo, pv.module, pv.node)
     ua = _arms(repo, up.module, up.node)
     ek = [sorted(n) for k, n, _ in ea if k == "isinstance"]
+    kvar, vvar = _item_loop_vars(up)
     uk = [(k, sorted(n) if k == "isinstance" else n) for k, n, _ in ua]
-    ok = ek == [["dict"], ["OptimizerModule"]] and [x for x in uk if x[0] != "else"] == [("isinstance", ["dict"]), ("other", ["hasattr(v, 'load_state_dict') and callable(v.load_state_dict)"]), ("isinstance", ["Tensor"])]
+    ok = ek == [["dict"], ["OptimizerModule"]] and [x for x in uk if x[0] != "else"] == [("isinstance", ["dict"]), ("other", [f"hasattr({vvar}, 'load_state_dict') and callable({vvar}.load_state_dict)"]), ("isinstance", ["Tensor"])]
     rep.ob(rule, "checkpoint-kind-tables-agree", ok, up.loc(), f"extract_state_dict_content arms {ek}; update_param_state_dict_object arms {uk}: dict -> recurse, module -> (state_dict | load_state_dict), tensor -> in-place copy, other -> replace", sample=True)
 
 
@@ -143,7 +152,8 @@ def in_place_loading(ctx, rep, rule: str) -> None:
     rep.ob(rule, "tensor-arm-copies-into-old-tensor", ok and ret_old, load.loc(), f"tensor arm performs `{old}.detach().copy_({new})` without rebinding `{old}`, and every return yields `{old}` (tensor objects are never replaced, so the optimizer's lists stay aliased): copy={ok}, returns-old={ret_old}", sample=True)
     up = repo.func(f"{CKPT_MOD}:update_param_state_dict_object")
     copies = [c for c in A.calls(up.node) if isinstance(c.func, ast.Attribute) and c.func.attr == "copy_"]
-    ok = len(copies) == 1 and _norm(copies[0].func.value) in ("v.detach()", "v") and "param_state_dict_to_load[k]" in _norm(copies[0].args[0])
+    kvar, vvar = _item_loop_vars(up)
+    ok = len(copies) == 1 and _norm(copies[0].func.value) in (f"{vvar}.detach()", vvar) and _norm(copies[0].args[0]) == f"{up.params[1]}[{kvar}]"
     rep.ob(rule, "param-state-tensor-copied-in-place", ok, up.loc(), "update_param_state_dict_object copies the loaded tensor into the existing state tensor")
     # keyed lookup agreement: writer keys sequences by position (enumerate), dicts by key; the reader must look up the same keys
     save = next(iter(om.methods["state_dict"].inner.values()))
@@ -204,6 +214,7 @@ def leafless_not_required(ctx, rep, rule: str) -> None:
 
     up = repo.func(f"{CKPT_MOD}:update_param_state_dict_object")
     cfg = CFG(up.node)
+    kvar, vvar = _item_loop_vars(up)
     raises = [n for n in A.walk_no_nested(up.node) if isinstance(n, ast.Raise) and "KeyError" in _norm(n)]
     rep.floor(rule, "missing-key raises in update_param_state_dict_object", len(raises), 1)
     for r in raises:
@@ -215,7 +226,7 @@ def leafless_not_required(ctx, rep, rule: str) -> None:
             t = leaf_tests[0].ast
             skips = any(isinstance(s, ast.Continue) for s in t.body)
             negated = isinstance(t.test, ast.UnaryOp) and isinstance(t.test.op, ast.Not)
-            ok = skips and negated and "{k: v}" in _norm(t.test)
+            ok = skips and negated and f"{{{kvar}: {vvar}}}" in _norm(t.test)
         rep.ob(rule, "missing-key-raise-only-for-values-with-leaves", ok, up.loc(r), "the KeyError for a key missing from the loaded state must be control-dependent on the current value contributing at least one flattened entry (`if not flatten(extract_state_dict_content({k: v})): continue`): flatten() drops leaf-less sub-dictionaries, so a block without Kronecker factors could otherwise not load its own checkpoint", sample=True)
     fl = repo.func(f"{CKPT_MOD}:flatten")
     red = [c for fi in _all_inner(fl) for c in A.calls(fi.node) if A.callee_name(repo, fl.module, c) == "functools.reduce"]
@@ -229,9 +240,9 @@ def run(ctx, rep) -> None:
     rep.rule("C16.3", "loading copies into the old tensors and looks containers up by the writer's keys")
     rep.rule("C16.4", "state_dict walks self.__dict__ and recurses into every container kind")
     rep.rule("C16.5", "leaf-less sub-dictionaries are dropped by flatten and never required by the reader")
-    codec_pairing(ctx, rep, "C16.1")
-    kind_tables(ctx, rep, "C16.2")
-    in_place_loading(ctx, rep, "C16.3")
-    emission(ctx, rep, "C16.4")
-    leafless_not_required(ctx, rep, "C16.5")
+    rep.attempt("codec_pairing", codec_pairing, ctx, rep, "C16.1")
+    rep.attempt("kind_tables", kind_tables, ctx, rep, "C16.2")
+    rep.attempt("in_place_loading", in_place_loading, ctx, rep, "C16.3")
+    rep.attempt("emission", emission, ctx, rep, "C16.4")
+    rep.attempt("leafless_not_required", leafless_not_required, ctx, rep, "C16.5")
     rep.assume("value equality after load and round-trip for all key values rely on JSON and torch copy_ semantics — NOT decided beyond the structural pairing")
